@@ -190,8 +190,10 @@ pub fn run(cfg: &Cfg) -> Report {
         judge_3d(ctx, cfg, m, &mut rng, true, cfg.tier.pick(4, 8));
         ctx.count("corpus_symbols");
         // finite covers of a euclidean symbol are euclidean: the closure of the corpus under covers with
-        // <= 2 (thorough 3) sheets must be found as well (covers built by the library, validated by the model)
-        if let Ok(cs) = observe(|| rust_dsymbols::covers::covers(&to_partial_dsym(m), cfg.tier.pick(2, 3)).iter().map(|c| from_dsym(c)).collect::<Vec<_>>()) {
+        // few sheets must be found as well (covers built by the library, validated by the model)
+        // sheet bound: chambers of the cover <= 18 (thorough 32), 2..=6 (thorough 8) sheets
+        let max_sheets = (cfg.tier.pick(18, 32) / m.n.max(1)).clamp(2, cfg.tier.pick(6, 8));
+        if let Ok(cs) = observe(|| rust_dsymbols::covers::covers(&to_partial_dsym(m), max_sheets).iter().map(|c| from_dsym(c)).collect::<Vec<_>>()) {
             for c in cs {
                 if c.n > m.n && c.is_valid_symbol() && c.is_connected() && c.covering_map_onto(m).is_some() && gen::locally_spherical_3d(&c) {
                     let f = judge_3d_one(ctx, &c, &format!("{}-sheeted cover of corpus symbol {}", c.n / m.n, gen::EUCLIDEAN_CORPUS[k]), true);
@@ -224,7 +226,7 @@ pub fn run(cfg: &Cfg) -> Report {
 
     report.rule = "2D: every curvature-zero symbol (v in {1,2,3,4,6}) on connected sets <= 4 (thorough 6) chambers, also renumbered and dualised; 3D: every complete symbol with v in {1,2,3,4,6} and spherical tiles and vertex figures on connected sets <= 3 (thorough 4) chambers plus sampled 5-chamber ones, each with 2-3 renumberings and its dual; the known-euclidean corpus (19 literature symbols quoted by the repository) with more renumberings. Non-trivial: 2D symbol with branching or non-oriented; 3D symbol whose cover has > 1 sheet over the oriented cover. Distinct = symbol digests".into();
     report.explanation = "2D: covering map found by the model, oriented, unbranched, Euler characteristic 0 with no boundary (torus, independent of any group computation), library presentation without cones and with Smith normal form [0,0]; 3D: Some(C) => C oriented, unbranched, covers the input (model search), H1(C) = Z^3 through the harness's textbook presentation and BigInt Smith normal form, sheet number over the oriented cover in {1,2,3,4,6,8,12,24}; found/sheet number identical over all explored renumberings and the dual; Some for every corpus symbol".into();
-    report.assume("known-euclidean corpus = the symbols the repository itself quotes from the literature (no network), closed under renumbering, dualisation and finite covers with <= 2-3 sheets (a finite cover of a euclidean symbol is euclidean); 3D domain as asserted by the function (crystallographic restriction)");
+    report.assume("known-euclidean corpus = the symbols the repository itself quotes from the literature (no network), closed under renumbering, dualisation and finite covers with <= 18 (thorough 32) chambers and 2..6 (8) sheets (a finite cover of a euclidean symbol is euclidean); 3D domain as asserted by the function (crystallographic restriction)");
     report.require_counter("toroidal_covers_2d", 100);
     report.require_counter("pseudo_toroidal.some", 50);
     report.require_counter("pseudo_toroidal.none", 50);
